@@ -43,6 +43,7 @@ fn body(m: u32, two_actions: bool) {
             verdicts: Arc::new(move |hook, aid| tb[(aid - A1) as usize][mw as usize][hook]),
             remove_effect: if remover == mw as usize { Some(0) } else { None },
             dispatch_in_hook: None,
+            read_from: None,
         }) as Arc<dyn Middleware<St, Act> + Send + Sync>);
     }
     let store = build_store(cfg);
@@ -212,16 +213,16 @@ pub fn scenarios(tier: Tier) -> Vec<Scenario> {
     };
     match tier {
         Tier::Quick => {
-            add(1, false, 1);
-            add(2, false, 0);
-            add(1, true, 0);
-        }
-        Tier::Thorough => {
             add(1, false, 2);
             add(2, false, 1);
-            add(3, false, 0);
             add(1, true, 1);
-            add(2, true, 0);
+        }
+        Tier::Thorough => {
+            add(1, false, 3);
+            add(2, false, 2);
+            add(3, false, 1);
+            add(1, true, 2);
+            add(2, true, 1);
         }
     }
     v
